@@ -1050,7 +1050,7 @@ orc_compiler_get_temp_reg (OrcCompiler *compiler)
     }
   }
   for(j=0;j<compiler->n_constants;j++){
-    if (compiler->constants[j].alloc_reg) {
+    if (compiler->constants[j].alloc_reg > 0) {
       compiler->alloc_regs[compiler->constants[j].alloc_reg] = 1;
     }
   }
@@ -1548,7 +1548,7 @@ orc_compiler_get_constant_reg (OrcCompiler *compiler)
     }
   }
   for(j=0;j<compiler->n_constants;j++){
-    if (compiler->constants[j].alloc_reg) {
+    if (compiler->constants[j].alloc_reg > 0) {
       compiler->alloc_regs[compiler->constants[j].alloc_reg] = 1;
     }
   }
